@@ -30,7 +30,7 @@ REQUIRED = {"quick": {"sort.calls": 20000, "sort.too_few_expected": 200, "sort.w
             "thorough": {"sort.calls": 1000000, "sort.too_few_expected": 5000, "sort.window_rejected": 500, "sort.e2e_rows": 5000, "__nontrivial__": 1000}}
 
 FLAVOURS = ["obj1", "obj_multi", "obj_neg", "con"]
-WEIGHTS = ["uniform", "zeros", "random"]
+WEIGHTS = ["uniform", "zeros", "random", "mixed_sign"]
 
 
 def cases(tier, seed):
@@ -66,6 +66,15 @@ def _weights(wid, n, rng):
     if wid == "uniform":
         return np.ones(n)
     w = rng.integers(1, 6, size=n).astype(float)
+    if wid == "mixed_sign":
+        # negative entries are valid as long as the sum stays positive: a window without a *positive* weight has too few
+        if n > 1:
+            neg = rng.random(n) < 0.4
+            neg[int(np.argmax(w))] = False
+            w = np.where(neg, -0.25 * w, w)
+            if w.sum() <= 0.2 * np.abs(w).sum():
+                w = np.abs(w)
+        return w
     if wid == "zeros" and n > 1:
         z = rng.random(n) < 0.4
         if z.all():
@@ -155,7 +164,7 @@ def run_case(case, obs):
         n = int(rng.integers(2, BOUNDS[obs.tier]["sampled_n_max"] + 1))
         failed = rng.random(n) < rng.choice([0.0, 0.2, 0.7])
         fl = FLAVOURS[int(rng.integers(4))]
-        wid = WEIGHTS[int(rng.integers(3))]
+        wid = WEIGHTS[int(rng.integers(4))]
     else:
         n, failed, fl, wid = case["n"], np.array(case["failed"], dtype=bool), case["flavour"], case["wid"]
         rng = rng_for(obs.seed, "c05", n, case["failed"], fl, wid)
